@@ -299,6 +299,14 @@ def own_cls_unchanged(o: H, h: H):
                   FA([x], z3.Implies(z3.And(x >= 0, x < o.alloc), h.cls(x) == o.cls(x)), [h.cls(x)]))
 
 
+def assoc_attr_frame(o: H, h: H, M):
+    """the attribute `associations` is reassigned on assets of the model only (the model's own list object stays)"""
+    y = A('y!af')
+    return ('frame.associations-attr', z3.And(h.f('associations', M) == o.f('associations', M),
+                                              FA([y], z3.Implies(z3.And(y >= 0, y < o.alloc, z3.Not(is_asset(o, M, y))), h.f('associations', y) == o.f('associations', y)),
+                                                 [h.f('associations', y)])))
+
+
 def install_remove_association(reg: Registry):
     def BLo(o, x): return o.f('associations', x)
 
@@ -350,6 +358,7 @@ def install_remove_association(reg: Registry):
             ('frame.lists', old_lists_unchanged(o, h, [SL, bucket])),
             ('frame.buckets', FA([kv], z3.Implies(kv != key, z3.And(h.has(D, kv) == o.has(D, kv), h.val(D, kv) == o.val(D, kv))), [h.has(D, kv)])),
             ('frame.sets', z3.And(*[z3.And(z3.Select(h.arr['D_has'], o.f(f, M)) == z3.Select(o.arr['D_has'], o.f(f, M))) for f in ('asset_ids', 'asset_names')])),
+            ('frame.own', own_cls_unchanged(o, h)), assoc_attr_frame(o, h, M),
         ]
 
     reg.add(Contract(MM + ':Model.remove_association', {'self': Obj(MODEL), 'association': Obj(ASSOC)},
@@ -496,6 +505,7 @@ def install_add_association(reg: Registry):
             ('frame.buckets', FA([kv], z3.Implies(kv != key, z3.And(h.has(D, kv) == o.has(D, kv), h.val(D, kv) == o.val(D, kv))), [h.has(D, kv)])),
             ('frame.sets', z3.And(*[z3.And(z3.Select(h.arr['D_has'], o.f(f, M)) == z3.Select(o.arr['D_has'], o.f(f, M))) for f in ('asset_ids', 'asset_names')])),
             ('frame.lists', lists_unchanged_where(o, h, lambda l: z3.And(l != SL, z3.Or(z3.Not(o.has(D, key)), l != v_a(o.val(D, key)))), 'af')),
+            ('frame.own', own_cls_unchanged(o, h)), assoc_attr_frame(o, h, M),
         ]
 
     reg.add(Contract(MM + ':Model.add_association', {'self': Obj(MODEL), 'association': Obj(ASSOC)},
@@ -505,6 +515,126 @@ def install_add_association(reg: Registry):
                      loops={1: LoopSpec(inv, iter_src='getattr(association, field_name)')}, props=('C05', 'C06')))
 
 
+def install_remove_asset_from_association(reg: Registry):
+    def BLo(o, x): return o.f('associations', x)
+
+    def whole(o, s, x):
+        """the association goes away entirely: the asset is the only member of one of its sides"""
+        return z3.Or(z3.And(in_l(o, s, x) > 0, o.len(o.f('lfield', s)) == 1), z3.And(in_r(o, s, x) > 0, o.len(o.f('rfield', s)) == 1))
+
+    def raise_cond(c):
+        o, M, x, s = c.old, c.self, c.asset, c.association
+        return z3.Or(z3.Not(is_asset(o, M, x)), z3.Not(is_assoc(o, M, s)), z3.And(in_l(o, s, x) <= 0, in_r(o, s, x) <= 0))
+
+    def ensures(c):
+        o, h, M, x, s = c.old, c.h, c.self, c.asset, c.association
+        y, r = A('y!rf'), A('r!rf')
+        SL = o.f('associations', M)
+        W = whole(o, s, x)
+        return WFM(h, M) + [
+            ('association', z3.And(h.cnt(SL, s) == z3.If(W, 0, 1), FA([r], z3.Implies(r != s, h.cnt(SL, r) == o.cnt(SL, r)), [h.cnt(SL, r)]))),
+            # the asset no longer lists the association; if the association goes away nobody lists it; all other back-references stay
+            ('backrefs', FA([y, r], z3.Implies(is_asset(o, M, y), h.cnt(h.f('associations', y), r) ==
+                                               z3.If(z3.And(r == s, z3.Or(W, y == x)), 0, o.cnt(BLo(o, y), r))), [h.cnt(h.f('associations', y), r)])),
+            ('fields', z3.Implies(z3.Not(W), z3.And(
+                FA([y], in_l(h, s, y) == z3.If(y == x, 0, in_l(o, s, y)), [in_l(h, s, y)]),
+                FA([y], in_r(h, s, y) == z3.If(y == x, 0, in_r(o, s, y)), [in_r(h, s, y)]),
+                h.f('lfield', s) == o.f('lfield', s), h.f('rfield', s) == o.f('rfield', s)))),
+            ('other-fields', FA([r], z3.Implies(z3.And(is_assoc(o, M, r), r != s), z3.And(list_unchanged(o, h, o.f('lfield', r)), list_unchanged(o, h, o.f('rfield', r)))),
+                                [o.f('lfield', r), o.f('rfield', r)])),
+            ('assets', list_unchanged(o, h, o.f('assets', M))),
+            ('attackers', list_unchanged(o, h, o.f('attackers', M))),
+            ('frame.lists', lists_unchanged_where(o, h, lambda l: z3.Or(o.own_obj(l) == -1, z3.And(*[o.own_fld(l) != field_id(f) for f in ('associations', 'lfield', 'rfield', BUCKET)])), 'rq')),
+            ('frame.sets', z3.And(*[z3.And(z3.Select(h.arr['D_has'], o.f(f, M)) == z3.Select(o.arr['D_has'], o.f(f, M))) for f in ('asset_ids', 'asset_names')])),
+            ('frame.own', own_cls_unchanged(o, h)), assoc_attr_frame(o, h, M),
+        ]
+
+    reg.add(Contract(MM + ':Model.remove_asset_from_association', {'self': Obj(MODEL), 'asset': Obj(ASSET), 'association': Obj(ASSOC)},
+                     requires=lambda c: WFM(c.old, c.self), ensures=ensures,
+                     raises={'LookupError': (raise_cond, lambda c: region_unchanged(c.old, c.h))},
+                     modifies=LIST_ARRAYS + ('D_has', 'D_size', 'D_keyat', 'cls', 'own_obj', 'own_fld', 'f_associations'), allocates=True,
+                     props=('C05',)))
+
+
+def install_remove_asset(reg: Registry):
+    def BLo(o, x): return o.f('associations', x)
+
+    def whole(o, s, x):
+        return z3.Or(z3.And(in_l(o, s, x) > 0, o.len(o.f('lfield', s)) == 1), z3.And(in_r(o, s, x) > 0, o.len(o.f('rfield', s)) == 1))
+
+    def lists_x(o, s, x): return z3.Or(in_l(o, s, x) > 0, in_r(o, s, x) > 0)
+
+    def assoc_state(o, h, M, x, gone_if):
+        """the associations after removing x from those for which gone_if(s) holds (done / all)"""
+        s, y = A('s!rs'), A('y!rs')
+        SL = o.f('associations', M)
+        goes = lambda q: z3.And(gone_if(q), whole(o, q, x))
+        return [
+            ('associations', FA([s], h.cnt(SL, s) == z3.If(goes(s), 0, o.cnt(SL, s)), [h.cnt(SL, s)])),
+            ('fields.l', FA([s, y], z3.Implies(z3.And(is_assoc(o, M, s), z3.Not(goes(s))), in_l(h, s, y) == z3.If(z3.And(gone_if(s), y == x), 0, in_l(o, s, y))),
+                            [in_l(h, s, y)])),
+            ('fields.r', FA([s, y], z3.Implies(z3.And(is_assoc(o, M, s), z3.Not(goes(s))), in_r(h, s, y) == z3.If(z3.And(gone_if(s), y == x), 0, in_r(o, s, y))),
+                            [in_r(h, s, y)])),
+            ('fields.len', FA([s], z3.Implies(z3.And(is_assoc(o, M, s), z3.Not(gone_if(s))), z3.And(h.len(o.f('lfield', s)) == o.len(o.f('lfield', s)),
+                                                                                                  h.len(o.f('rfield', s)) == o.len(o.f('rfield', s)))),
+                              [h.len(o.f('lfield', s))], )),
+            ('fields.len2', FA([s], z3.Implies(z3.And(is_assoc(o, M, s), z3.Not(gone_if(s))), h.len(o.f('rfield', s)) == o.len(o.f('rfield', s))),
+                               [h.len(o.f('rfield', s))], )),
+            ('backrefs', FA([y, s], z3.Implies(is_asset(o, M, y), h.cnt(h.f('associations', y), s) ==
+                                               z3.If(z3.And(gone_if(s), z3.Or(whole(o, s, x), y == x)), 0, o.cnt(BLo(o, y), s))),
+                            [h.cnt(h.f('associations', y), s), o.cnt(BLo(o, y), s)])),
+        ]
+
+    def inv0(c: LCtx):
+        o, h, M, x = c.old, c.h, c.self, c.asset
+        done = lambda q: z3.Select(c.done, VRef(q)) > 0
+        kv = z3.Const('k!r0', Val)
+        return WFM(h, M) + assoc_state(o, h, M, x, done) + [
+            ('copy-fresh', c.it >= o.alloc),
+            ('done-are-associations-of-x', FA([A('s!r0')], z3.Implies(done(A('s!r0')), o.cnt(BLo(o, x), A('s!r0')) > 0), [z3.Select(c.done, VRef(A('s!r0')))])),
+            ('assets', list_unchanged(o, h, o.f('assets', M))), ('attackers', list_unchanged(o, h, o.f('attackers', M))),
+            ('frame.lists', lists_unchanged_where(o, h, lambda l: z3.Or(o.own_obj(l) == -1, z3.And(*[o.own_fld(l) != field_id(f) for f in ('associations', 'lfield', 'rfield', BUCKET)])), 'r0')),
+            ('copy-unowned', z3.And(h.own_obj(c.it) == -1, c.it < h.alloc)), assoc_attr_frame(o, h, M),
+            ('frame.sets', z3.And(*[z3.And(z3.Select(h.arr['D_has'], o.f(f, M)) == z3.Select(o.arr['D_has'], o.f(f, M))) for f in ('asset_ids', 'asset_names')])),
+            ('frame.own', own_cls_unchanged(o, h)),
+        ]
+
+    def eps_state(o, h, M, x, done_if):
+        a, t = A('a!re'), A('t!re')
+        E = lambda q: o.f('entry_points', q)
+        return [('entry-points', FA([a, t], z3.Implies(is_attk(o, M, a), h.cnt(E(a), t) == z3.If(z3.And(done_if(a), o.f('t0', t) == x), 0, o.cnt(E(a), t))),
+                                   [h.cnt(E(a), t)]))]
+
+    def inv1(c: LCtx):
+        o, h, M, x = c.old, c.h, c.self, c.asset
+        hl = c.hl
+        done = lambda q: z3.Select(c.done, VRef(q)) > 0
+        kv = z3.Const('k!r1', Val)
+        a = A('a!r1')
+        return eps_state(o, h, M, x, done) + [
+            ('only-entry-point-lists', lists_unchanged_where(hl, h, lambda l: hl.own_fld(l) != field_id('entry_points'), 'r1')),
+            ('elems', FA([a, kv], z3.Implies(is_attk(o, M, a), z3.And(h.bag(o.f('entry_points', a), kv) >= 0,
+                                                                    z3.Implies(h.bag(o.f('entry_points', a), kv) > 0, is_VRef(kv)))), [h.bag(o.f('entry_points', a), kv)])),
+        ]
+
+    def ensures(c):
+        o, h, M, x = c.old, c.h, c.self, c.asset
+        y = A('y!ra')
+        kv = z3.Const('k!ra', Val)
+        XL, IDS, NMS = o.f('assets', M), o.f('asset_ids', M), o.f('asset_names', M)
+        return WFM(h, M) + assoc_state(o, h, M, x, lambda q: lists_x(o, q, x)) + eps_state(o, h, M, x, lambda q: z3.BoolVal(True)) + [
+            ('asset-gone', z3.And(h.cnt(XL, x) == 0, FA([y], z3.Implies(y != x, h.cnt(XL, y) == o.cnt(XL, y)), [h.cnt(XL, y)]))),
+            ('id-released', FA([kv], h.has(IDS, kv) == z3.And(o.has(IDS, kv), kv != o.f('id', x)), [h.has(IDS, kv)])),
+            ('name-released', FA([kv], h.has(NMS, kv) == z3.And(o.has(NMS, kv), kv != VStr(o.f('name', x))), [h.has(NMS, kv)])),
+        ]
+
+    reg.add(Contract(MM + ':Model.remove_asset', {'self': Obj(MODEL), 'asset': Obj(ASSET)},
+                     requires=lambda c: WFM(c.old, c.self), ensures=ensures,
+                     raises={'LookupError': (lambda c: z3.Not(is_asset(c.old, c.self, c.asset)), lambda c: region_unchanged(c.old, c.h))},
+                     modifies=LIST_ARRAYS + ('D_has', 'D_size', 'D_keyat', 'cls', 'own_obj', 'own_fld', 'f_associations'), allocates=True,
+                     loops={0: LoopSpec(inv0, iter_src='list(asset.associations)'), 1: LoopSpec(inv1, iter_src='self.attackers')}, props=('C05',)))
+
+
 def install(reg: Registry):
     install_attachment(reg)
     install_attackers(reg)
@@ -512,3 +642,5 @@ def install(reg: Registry):
     install_remove_association(reg)
     install_validate(reg)
     install_add_association(reg)
+    install_remove_asset_from_association(reg)
+    install_remove_asset(reg)
